@@ -1030,7 +1030,8 @@ def primary_degenerate(rng, count):
         res, bl = rng.choice([(1400, 1), (1400, 1), (700, 2), (2000, 0), (5000, 1)])
         n = rng.choice([1, 2, 3, 8, 30])
         R = rand_map(rng, n, rng.choice([3000, 9000]), 500)
-        R = [p - R[0] + rng.choice([0, 0, rng.randrange(0, 3000)]) for p in R]
+        shift0 = rng.choice([0, 0, rng.randrange(0, 3000)])
+        R = [p - R[0] + shift0 for p in R]
         c = rng.random()
         if c < 0.5:
             Q = [p - R[0] for p in R]                       # the contig itself
